@@ -41,18 +41,22 @@ func (d *c01CoreDriver) Manager() *c01Manager { return d.gqm }
 
 // OnQuotaAdd / OnQuotaUpdate both end in UpdateQuota(new) (an add for a quota the manager already knows is dropped
 // by the plugin; the model never re-adds a live quota).
-func (d *c01CoreDriver) QuotaUpsert(old, new *v1alpha1.ElasticQuota) error { return d.gqm.UpdateQuota(new) }
-func (d *c01CoreDriver) QuotaDelete(obj *v1alpha1.ElasticQuota) error      { return d.gqm.DeleteQuota(obj) }
-func (d *c01CoreDriver) PodAdd(route string, pod *corev1.Pod)              { d.gqm.OnPodAdd(route, pod) }
+func (d *c01CoreDriver) QuotaUpsert(old, new *v1alpha1.ElasticQuota) error {
+	return d.gqm.UpdateQuota(new)
+}
+func (d *c01CoreDriver) QuotaDelete(obj *v1alpha1.ElasticQuota) error { return d.gqm.DeleteQuota(obj) }
+func (d *c01CoreDriver) PodAdd(route string, pod *corev1.Pod)         { d.gqm.OnPodAdd(route, pod) }
 func (d *c01CoreDriver) PodUpdate(newRoute, oldRoute string, newPod, oldPod *corev1.Pod) {
 	d.gqm.OnPodUpdate(newRoute, oldRoute, newPod, oldPod)
 }
-func (d *c01CoreDriver) PodDelete(route string, pod *corev1.Pod)     { d.gqm.OnPodDelete(route, pod) }
-func (d *c01CoreDriver) Reserve(route string, assumed *corev1.Pod)   { d.gqm.ReservePod(route, assumed) }
-func (d *c01CoreDriver) Unreserve(route string, assumed *corev1.Pod) { d.gqm.UnreservePod(route, assumed) }
-func (d *c01CoreDriver) NodeAdd(n *corev1.Node)                      { d.gqm.OnNodeAdd(n) }
-func (d *c01CoreDriver) NodeUpdate(old, n *corev1.Node)              { d.gqm.OnNodeUpdate(old, n) }
-func (d *c01CoreDriver) NodeDelete(n *corev1.Node)                   { d.gqm.OnNodeDelete(n) }
+func (d *c01CoreDriver) PodDelete(route string, pod *corev1.Pod)   { d.gqm.OnPodDelete(route, pod) }
+func (d *c01CoreDriver) Reserve(route string, assumed *corev1.Pod) { d.gqm.ReservePod(route, assumed) }
+func (d *c01CoreDriver) Unreserve(route string, assumed *corev1.Pod) {
+	d.gqm.UnreservePod(route, assumed)
+}
+func (d *c01CoreDriver) NodeAdd(n *corev1.Node)         { d.gqm.OnNodeAdd(n) }
+func (d *c01CoreDriver) NodeUpdate(old, n *corev1.Node) { d.gqm.OnNodeUpdate(old, n) }
+func (d *c01CoreDriver) NodeDelete(n *corev1.Node)      { d.gqm.OnNodeDelete(n) }
 
 // MigrateCycle restates Plugin.migrateDefaultQuotaGroupsPod: walk the default quota's pod cache (the objects stored
 // there, exactly as the plugin does) and move every pod whose label now names an existing quota.
